@@ -89,6 +89,11 @@ def run_program(args):
     if st0 != 'ok':
         rec['ref_exc'] = ref
         return rec
+    if entry == 'calc_total_error' and rep not in ('quantity', 'mixed_units', 'nddata'):
+        gm = np.full(E.SHAPE, 2.0); gm[0:3, :] = 0.0; gm[10, 10] = 0.0; gm[12:20, 5:9] = 3.0       # gain / exposure map with uncovered pixels
+        base = dict(base, gain_map=gm)
+        ref_inp['gain_map'] = gm
+        st0, ref = E.run_entry(entry, dict(ref_inp))
     inp = dict(ref_inp)
     uses = E.ENTRIES[entry]['uses']
     if rep == 'nddata':
@@ -96,7 +101,9 @@ def run_program(args):
         inp.pop('error', None); inp.pop('mask', None)
         inp['error'] = None; inp['mask'] = None
     else:
-        for k in ('data', 'error', 'bkg'):
+        for k in ('data', 'error', 'bkg', 'gain_map'):
+            if k == 'gain_map' and 'gain_map' not in base:
+                continue
             if k in uses or k == 'data':
                 if rep == 'mixed_units' and k != 'data':
                     continue
